@@ -98,14 +98,13 @@ def _load_fast(vm, s, f, ins):
 def _check_bound(vm, s, v, name):
     bad = [g for g, x in v.alts if x is NULL or x is UNDEF]
     if bad:
-        v = vm.project(s, v, True)
-        if type(v) is Union:
-            bad = [g for g, x in v.alts if x is NULL or x is UNDEF]
-            if bad:
-                vm.raise_under(s, OR(*bad), UnboundLocalError(f"'{name}' possibly unbound"))
-                v = mk_union([(g, x) for g, x in v.alts if x is not NULL and x is not UNDEF])
-        elif v is NULL or v is UNDEF:
-            raise VMRaise(UnboundLocalError(f"'{name}' unbound"))
+        b = OR(*bad)
+        good = [(g, x) for g, x in v.alts if x is not NULL and x is not UNDEF and AND(s.guard, g) is not FALSE]
+        if vm.feasible(AND(s.guard, b)):
+            if not good:
+                raise VMRaise(UnboundLocalError(f"'{name}' unbound"))
+            vm.raise_under(s, b, UnboundLocalError(f"'{name}' possibly unbound"))
+        v = mk_union(good)
     return v
 
 
@@ -773,8 +772,6 @@ def _for_iter(vm, s, f, ins):
     if vm.prune_branches:
         if gp is not FALSE and not vm.feasible(gp):
             gp = FALSE
-        if gn is not FALSE and not vm.feasible(gn):
-            gn = FALSE
     out = []
     if gn is not FALSE:
         s2 = s.copy(gn) if gp is not FALSE else s
@@ -976,7 +973,9 @@ def inst_lookup(vm, s, inst, name, for_method=False):
         if type(v) is Union:
             v = vm.project(s, v)
             if type(v) is Union and any(x is UNDEF for _, x in v.alts):
-                v = vm.project(s, v, True)
+                ub = OR(*[g for g, x in v.alts if x is UNDEF])
+                if not vm.feasible(AND(s.guard, ub)):
+                    v = mk_union([(g, x) for g, x in v.alts if x is not UNDEF])
         if type(v) is Union:
             bad = [g for g, x in v.alts if x is UNDEF]
             if bad:
